@@ -37,6 +37,10 @@ class PMask(_Generic):
     def __invert__(self):
         return PMask(self.t, lambda i, a=self.f: z3.Not(a(i)))
 
+    def any(self):
+        j = z3.Int(f"j!{next(ctx().counter)}")
+        return SB(z3.Exists([j], z3.And(j >= 0, j < to_z3(self.t.n), self.f(j))))
+
 
 class PCol(_Generic):
     """a column (or a per-row expression over one table)"""
